@@ -215,6 +215,18 @@ pub fn run(rep: &mut Rep) {
             let mut w = base.clone();
             w.secret = base.secret + Fr::from(1u64);
             seq.push(("same-e,id|s+1".into(), w));
+            // every remaining input changed alone as well: the limit (same secret: another rate commitment) and one
+            // direction bit
+            let mut w = base.clone();
+            w.limit = base.limit + Fr::from(1u64);
+            seq.push(("same-s,e,id|limit+1".into(), w));
+            let mut w = base.clone();
+            w.limit = base.limit + base.limit;
+            seq.push(("same-s,e,id|limit*2".into(), w));
+            let mut w = base.clone();
+            let k = rng.gen_range(0..20);
+            w.bits[k] ^= 1;
+            seq.push(("same-s,e,id|other-direction-bit".into(), w));
             seq.push(("base-again".into(), base.clone()));
             if q % 2 == 1 {
                 seq.reverse();
